@@ -89,9 +89,11 @@ def validAccount (alnum : Nat → Bool) (a : Account) : Bool :=
   | t :: rest => (AccountType.ofName t).isSome && rest.all (fun s => validName s alnum)
 
 /-- a directive the journal grammar can express: a transaction has at least one booking, postings come in pairs,
-every account and commodity name is a valid name -/
+every account and commodity name is a valid name, and the stored description contains no double quote (the syntax
+has no escape for it; the day's transactions are sorted by the stored description, so it must be the printed one) -/
 def wellFormed (alnum : Nat → Bool) : Directive → Bool
   | .tx t =>
+    t.description.toList.all (fun c => c != '"') &&
     !t.postings.isEmpty && t.postings.length % 2 == 0 &&
     t.postings.all (fun p => validAccount alnum p.account && validAccount alnum p.other && validName p.commodity alnum) &&
     (match t.targets with | none => true | some tg => tg.all (fun c => validName c alnum))
